@@ -106,10 +106,17 @@ func NewSession(id uint16, clientMAC, serverMAC net.HardwareAddr) (*Session, err
 		return nil, fmt.Errorf("failed to generate session ID: %w", err)
 	}
 
+	// Keep private copies of the MACs: callers pass slices of a reused receive
+	// buffer, and the session's owner must not change when that buffer does.
+	ownClientMAC := make(net.HardwareAddr, len(clientMAC))
+	copy(ownClientMAC, clientMAC)
+	ownServerMAC := make(net.HardwareAddr, len(serverMAC))
+	copy(ownServerMAC, serverMAC)
+
 	return &Session{
 		ID:           id,
-		ClientMAC:    clientMAC,
-		ServerMAC:    serverMAC,
+		ClientMAC:    ownClientMAC,
+		ServerMAC:    ownServerMAC,
 		State:        StateDiscovery,
 		MagicNumber:  magic,
 		MRU:          1492, // Default PPPoE MRU
